@@ -791,6 +791,25 @@ func init() {
 			f.O.BreakW = 1
 		}
 	}, "write_break", "short_write_timeout", "backoff_checked")})
+	// the peer half-closes and stops reading while writers are busy and no
+	// PauseTimeout bounds their writes: the read routine sees the end of the
+	// stream and has to take the connection down under them
+	register("C10", Family{Name: "half-close", Weight: 1, Run: flowFamily(func(f *Flow) {
+		o := &f.O
+		o.PauseTimeout = 0
+		o.Inbound = f.W.Tape.Draw("nin10h", 4)
+		o.Publishers = 1 + f.W.Tape.Draw("npub10h", 2)
+		o.Requesters = 2 + f.W.Tape.Draw("nreq10h", 3)
+		o.PerReq = 3 + f.W.Tape.Draw("perreq10h", 5)
+		o.BigPayload = 400
+		o.Net.DialFail, o.Net.DialHang, o.Net.WriteBreak, o.Net.ShortWrite = 0, 0, 0, 0
+		o.PartW = 0
+		o.BreakW = 3
+		o.HalfCloseW = 12
+		o.Budget = 1 + f.W.Tape.Draw("budget10h", 2) // nothing left for the peer's reset
+		o.FaultFrom = 30 + f.W.Tape.Draw("faultfrom10h", 120)
+		o.Backoff = !f.W.Tape.Flip("nobackoff10h", 250)
+	}, "break_kind3", "backoff_checked")})
 	// partitions without reset, preferably inside large inbound packets:
 	// the client has only its PauseTimeout to notice
 	register("C10", Family{Name: "partition", Weight: 1, Run: flowFamily(func(f *Flow) {
@@ -901,6 +920,35 @@ func init() {
 		o.InQ = [3]int{0, 1, 3}
 		o.Budget = f.W.Tape.Draw("budget15l", 3)
 	}, "record_layout_checked")})
+	// the record layer on the real FileSystem store: savers of different
+	// keys overlap in the file system, the process is killed at a drawn
+	// system call, and what the next incarnation sends is what was saved
+	// under that key
+	register("C15", Family{Name: "fs-store", Weight: 1, Run: flowFamily(func(f *Flow) {
+		restartTune(-1)(f)
+		o := &f.O
+		o.FSStore = true
+		o.FSStopCalls = 60 + f.W.Tape.Draw("fs-stop-range15", 200)
+		o.Disk = DiskOpts{}
+		o.BigPayload = 0
+		o.Publishers = 2 + f.W.Tape.Draw("npub15f", 2)
+		o.PerPub = 2 + f.W.Tape.Draw("perpub15f", 4)
+		o.Q2 = 500
+		o.Inbound = f.W.Tape.Draw("nin15f", 3)
+		o.InQ = [3]int{0, 1, 3}
+	}, "resumed_after_restart", "record_layout_checked")})
+	register("C16", Family{Name: "fs-leftovers", Weight: 1, Run: flowFamily(func(f *Flow) {
+		// the process is killed inside the FileSystem store's Save: spool
+		// files and partial writes are what the next incarnation finds
+		restartTune(-1)(f)
+		o := &f.O
+		o.FSStore = true
+		o.FSStopCalls = 40 + f.W.Tape.Draw("fs-stop-range16", 160)
+		o.Disk = DiskOpts{}
+		o.BigPayload = 0
+		o.Publishers = 1 + f.W.Tape.Draw("npub16f", 2)
+		o.PerPub = 3 + f.W.Tape.Draw("perpub16f", 5)
+	}, "stop_inside_write", "resumed_after_restart")})
 	register("C13", Family{Name: "hostile", Weight: 1, Run: flowFamily(func(f *Flow) {
 		o := &f.O
 		o.HostileN = 1 + f.W.Tape.Draw("nhostile", 4)
@@ -1055,6 +1103,18 @@ func init() {
 		f.W.MaxSteps = 2000000
 		f.Custom = func(f *Flow, s *Sim) { f.idWindowTasks(s) }
 	}, "identifier_window_wrapped")})
+	register("C17", Family{Name: "id-window", Weight: 1, Run: flowFamily(func(f *Flow) {
+		// the subscribe/unsubscribe identifier counter once around while a
+		// request is pending: its identifier must be skipped
+		o := &f.O
+		o.Publishers, o.Requesters, o.Inbound = 0, 0, 0
+		o.Net = NetOpts{Pipe: o.Net.Pipe}
+		o.Disk = DiskOpts{}
+		o.BreakW, o.Budget = 0, 0
+		o.PauseTimeout = 250 * time.Millisecond
+		f.W.MaxSteps = 2000000
+		f.Custom = func(f *Flow, s *Sim) { f.idWindowTasks(s) }
+	}, "identifier_window_wrapped")})
 	register("C14", Family{Name: "matrix", Weight: 1, Run: flowFamily(func(f *Flow) {
 		f.O.Publishers = f.W.Tape.Draw("npub14", 2)
 		f.O.Requesters = 2 + f.W.Tape.Draw("nreq14", 4)
@@ -1148,6 +1208,20 @@ func init() {
 		o.PerPub = 2 + f.W.Tape.Draw("perpub5w", 5)
 		o.Budget = 2
 	}, "pending_range_straddles_wrap", "resend_carried_dup")})
+	register("C01", Family{Name: "wrap", Weight: 1, Run: flowFamily(func(f *Flow) {
+		// the pending ranges at the identifier wrap-around, over restarts:
+		// every accepted message still gets through
+		o := &f.O
+		o.Constructed = true
+		o.Generations = 2 + f.W.Tape.Draw("gens1w", 2)
+		o.FaultFreeAfterStop = true
+		o.StopW = 1
+		o.Clean = false
+		o.ALOMax, o.EOMax = 64, 64
+		o.Publishers = 1 + f.W.Tape.Draw("npub1w", 2)
+		o.PerPub = 1 + f.W.Tape.Draw("perpub1w", 5)
+		o.Budget = 2
+	}, "pending_range_straddles_wrap", "resumed_after_restart")})
 	register("C18", Family{Name: "connects", Weight: 1, Run: flowFamily(func(f *Flow) {
 		f.O.Net.DialFail = 300
 		f.O.Net.DialHang = 100
